@@ -189,6 +189,12 @@ def classify_crash(job):
     if job.backend == 0 and phase == "load" and kind == "asan-SEGV" and re.match(rb'<topology version="\d+\.\d+', body) and b">" not in body \
        and any(f.startswith(("hwloc__nolibxml_import", "hwloc_nolibxml_look_init")) for f in funcs):
         return "look-init-no-gt", "hwloc_nolibxml_look_init: strchr(buffer,'>')+1 with no '>' after <topology version=\"x.y\" (NULL+1 handed to the tokenizer): " + where
+    if "Assertion `id != HWLOC_MEMATTR_ID_" in err:
+        return "memattr-predefined-values-assert", "XML <memattr name=Capacity|Locality> with the matching flags and a <memattr_value>: hwloc_internal_memattr_set_value asserts id != HWLOC_MEMATTR_ID_CAPACITY/LOCALITY (both backends): phase " + phase
+    if top[0] == "hwloc_internal_cpukinds_register" and phase == "reload":
+        return "cpukinds-reload-null-array", "after a failed XML load that had registered a cpukind, loading a valid XML with <cpukind> writes through a NULL array: hwloc_internal_cpukinds_destroy resets cpukinds/nr_cpukinds but not nr_cpukinds_allocated: " + where
+    if top[0] == "hwloc__nolibxml_export_escape_string":
+        return "export-escape-overflow", "the built-in XML exporter writes past the block holding the escaped copy of a string (hwloc__nolibxml_export_escape_string) while exporting a loaded topology: %s %s" % (kind, where)
     am = re.search(r"/hwloc/([\w.-]+):\d+: (\w+): Assertion `([^']*)' failed", "\n".join(l for l in err.split("\n") if "hwloc__check_" not in l and ": hwloc_topology_check:" not in l))
     if am and "bridge.downstream_type" not in am.group(3):
         return "assert:%s" % am.group(2), "failed assertion in %s (%s): `%s' in phase %s" % (am.group(2), am.group(1), am.group(3)[:120], phase)
@@ -274,7 +280,7 @@ def judge(run, job, wf_lines):
             rl = re.search(r"reload-load rc=(-?\d+)", out)
             if mset and mset.group(1) == "0" and rs and rs.group(1) != "0":
                 v.append(("reload-after-failed-load-ebusy", "after hwloc_topology_load() failed the topology cannot be configured again: set_synthetic returns -1 errno=%s (state stays IS_LOADING; hwloc.h: 'configured and loaded again')" % rs.group(2)))
-            elif not rl or rl.group(1) != "0" or "reload-check ok" not in out or "reload-nbpus 8" not in out:
+            elif not rl or rl.group(1) != "0" or "reload-check ok" not in out or "reload-nbpus 8" not in out or ("reload-cpukinds" in out and ("reload-cpukinds %d" % (0 if job.tflags & 512 else 2)) not in out):
                 v.append(("reload-failed", "after a failed set/load, configuring a valid synthetic source and loading again does not give the expected topology"))
     return v
 
@@ -317,7 +323,9 @@ def make_jobs(run, exe, scratch):
     def add(kind, data, origin, backends=(0,), methods=("buf",), tflags=None, opts=None):
         for b in backends:
             for me in methods:
-                jobs.append(Job(kind, b, me, rng.choice(TFLAGS) if tflags is None else tflags, rng.choice([4, 4, 5, 6, 0, 1]) if opts is None else opts, data, origin))
+                # option bits: 1/2 userdata callback modes, 4 keep all types, 8 built-in XML exporter in the battery, 16 reload from XML
+                o = (rng.choice([4, 4, 5, 6, 0, 1]) | rng.choice([8, 8, 0]) | rng.choice([16, 0])) if opts is None else opts
+                jobs.append(Job(kind, b, me, rng.choice(TFLAGS) if tflags is None else tflags, o, data, origin))
 
     # 0. regression corpus (minimised reproducers), every backend/method they name
     cdir = os.path.join(C.VERIF, "corpus", "c06")
@@ -348,7 +356,8 @@ def make_jobs(run, exe, scratch):
             if os.path.exists(j.path + suf):
                 seeds.append(("export/" + open(j.path).read().strip() + suf, open(j.path + suf, "rb").read()))
     for name, data in seeds:
-        add("topo", data, "valid:" + name, backends=(0, 1), methods=("buf", "file") if len(data) < 30000 else ("buf",), tflags=0, opts=5)
+        add("topo", data, "valid:" + name, backends=(0, 1), methods=("buf", "file") if len(data) < 30000 else ("buf",), tflags=0, opts=5 | 8)
+        add("topo", data, "valid:" + name, backends=(0,), tflags=0, opts=5)
     small = [(n, d) for n, d in seeds if len(d) <= 16000]
     # 2. structure-aware mutations
     nmut = 1100 * mult
@@ -362,6 +371,11 @@ def make_jobs(run, exe, scratch):
         r = rng.random()
         backends = (0,) if r < 0.7 else (1,) if r < 0.85 else (0, 1)
         add("topo", m, "mutation:%s:%s" % (name, "+".join(ops)), backends=backends, methods=("file",) if rng.random() < 0.1 else ("buf",))
+    # 2b. strings at the extremes of every escape's expansion ratio, exported by both exporters
+    for k, (m, desc) in enumerate(G.escape_extremes(seeds[0][1], seeds[1][1], full=not quick)):
+        add("topo", m, desc, backends=(0,) if k % 5 else (1,), tflags=0, opts=4 | 8)
+        if k % 4 == 0:
+            add("topo", m, desc, backends=(0,), tflags=0, opts=4)
     # 3. truncation at every byte of the small documents (nolibxml), sampled for libxml
     for name, data in (seeds[2:3] if quick else seeds[2:4] + [seeds[0]]):
         for k in range(len(data) + 1):
